@@ -43,6 +43,15 @@ def r_K3():
     return b > 20 * a
 
 
+def r_K6():
+    import datetime
+    import pytz
+    import prettyprinter as pp
+    tz = pytz.timezone('Europe/Helsinki').localize(datetime.datetime(2020, 6, 1, 12)).tzinfo
+    out = pp.pformat(tz)
+    return 'DstTzInfo(' in out and 'In timezone' in out
+
+
 def r_K2():
     import prettyprinter as pp
     return pp.pformat([None, True], depth=1) == '[None, True]'
@@ -298,6 +307,8 @@ def match_known(prop, failing, known):
         return 'K2'
     if 'K5' in ids and kind == 'depth-str-key-printed-in-full':
         return 'K5'
+    if 'K6' in ids and kind == 'pytz-dst-variant-not-reconstructible':
+        return 'K6'
     if 'K3' in ids and kind == 'cost-family' and failing.get('family') == 'commented_dict_values':
         return 'K3'
     return None
